@@ -50,16 +50,39 @@ def main(argv=None) -> int:
     try:
         repo = Repo(args.repo)
         mod = load_rules(prop)
-        ctx = Ctx(prop, repo, args.tier)
-        try:
-            mod.run(ctx)
-        except AnalysisError as e:
-            # a rule lost its footing after definite violations had been reported: the violations stand (exit 1); without any, the run is analysis-broken (exit 2)
+        # A rule that loses its footing (AnalysisError: the code no longer has the shape it reads) must not hide what the other rules of the property can
+        # still decide: the failing rule function is stubbed out and the property is evaluated again (at most 4 times).  Definite violations found that way
+        # stand (exit 1, with an ANALYSIS-INCOMPLETE line); with none, the run is analysis-broken (exit 2) — never a silent pass.
+        import re as _re
+        first_error = None
+        stubbed = []
+        for _attempt in range(5):
+            ctx = Ctx(prop, repo, args.tier)
+            try:
+                mod.run(ctx)
+                break
+            except Exception as e:  # noqa: BLE001
+                if not isinstance(e, AnalysisError) and first_error is None:
+                    raise
+                if first_error is None:
+                    first_error = e
+                tb = e.__traceback__
+                names = []
+                while tb is not None:
+                    fn = tb.tb_frame.f_code.co_name
+                    if _re.match(r"^_?r\d\d", fn) and tb.tb_frame.f_globals.get("__name__", "").startswith("odfsa.rules") and hasattr(mod, fn):
+                        names.append(fn)
+                    tb = tb.tb_next
+                if not names or _attempt == 4:
+                    break
+                stubbed.append(names[0])
+                setattr(mod, names[0], lambda *a, **k: None)
+        if first_error is not None:
             if not [f for f in ctx.findings if not getattr(f, "info", False)]:
-                raise
-            ctx.note(f"analysis stopped early: {e}")
+                raise first_error
+            ctx.note(f"analysis stopped early: {first_error}")
             ctx.incomplete = True  # floors of the rules that did not run to the end are not enforced: the violations found stand
-            print(f"ANALYSIS-INCOMPLETE property={prop}: {e} (violations found before that are reported)")
+            print(f"ANALYSIS-INCOMPLETE property={prop}: {first_error} (rule(s) {stubbed} could not be evaluated; violations found by the others are reported)")
         if args.replay:
             want = json.loads(Path(args.replay).read_text())
             hits = [f for f in ctx.findings if f.identity == want.get("identity")]
